@@ -132,6 +132,8 @@ pub struct AgentView {
     pub alive: bool,
     pub past_lookup: bool,
     pub in_callback: bool,
+    /// Parked right before the `try_lock_owned` of its key mutex (hook site `KeyTry`).
+    pub at_key_try: bool,
     pub stream_keys: Vec<Key>,
     pub stream_pending: Vec<Key>,
 }
@@ -416,6 +418,7 @@ impl Executor {
                     alive: a.alive(),
                     past_lookup: a.past_lookup,
                     in_callback: matches!(a.state, AState::InCallback(_)),
+                    at_key_try: matches!(a.state, AState::Parked(Site::KeyTry(_))),
                     stream_keys: a.stream_keys.clone(),
                     stream_pending: a.stream_pending(),
                 })
